@@ -250,6 +250,44 @@ def case_mm_expanded_operands():
     return None
 
 
+def case_transposed_per_axis_operands():
+    """`t()` of a tensor quantized along its first axis, used as a linear weight / as the left operand of mm"""
+    import optimum.quanto as q
+    torch.manual_seed(0)
+    for k, n, rows in ((6, 6, 6), (6, 4, 6), (8, 8, 24), (6, 4, 1), (6, 4, 3)):
+        w = q.quantize_weight(torch.randn(k, n), q.qint8, 0)      # scales indexed by k
+        wt = w.t()                                                  # [n, k], scales indexed by the last axis
+        for xq in (False, True):
+            x = torch.randn(rows, k)
+            x = _qa(x) if xq else x
+            try:
+                r = torch.nn.functional.linear(x, wt)
+            except Exception as e:  # noqa
+                return f"linear with a transposed first-axis weight [{n},{k}] raises {exc_name(e)}"
+            ref = torch.nn.functional.linear(_deq(x), _deq(wt))
+            if tuple(_deq(r).shape) != tuple(ref.shape) or not torch.allclose(_deq(r), ref, atol=1e-3, rtol=1e-3):
+                return f"linear with a transposed first-axis weight [{n},{k}], {rows} rows, is mis-scaled"
+        # mm: [n, k] @ [k, p] with the left operand's scales on the contracted dimension
+        for p_ in (k, 8):
+            y = _qa(torch.randn(k, p_))
+            try:
+                r = torch.mm(wt, y)
+            except Exception as e:  # noqa
+                return f"mm with a transposed first-axis left operand raises {exc_name(e)}"
+            ref = torch.mm(_deq(wt), _deq(y))
+            if tuple(_deq(r).shape) != tuple(ref.shape) or not torch.allclose(_deq(r), ref, atol=1e-3, rtol=1e-3):
+                return "mm with a transposed first-axis left operand is mis-scaled"
+    # the integer GEMM shapes: n > 16, multiples of 8
+    w = q.quantize_weight(torch.randn(16, 24), q.qint8, 0)
+    wt = w.t()
+    y = _qa(torch.randn(16, 16))
+    r = torch.mm(wt, y)
+    ref = torch.mm(_deq(wt), _deq(y))
+    if not torch.allclose(_deq(r), ref, atol=1e-3, rtol=1e-3):
+        return "mm (integer GEMM shapes) with a transposed first-axis left operand is mis-scaled"
+    return None
+
+
 def case_copy_into_module_output():
     """the quantized output of a module holds the module's `output_scale` buffer itself: writing it in place rescales the module"""
     import optimum.quanto as q
@@ -328,6 +366,7 @@ CASES = {
     "linear-strided-int8-operands": case_linear_strided_int8_operands,
     "copy_-into-module-output": case_copy_into_module_output,
     "mm-expanded-operands": case_mm_expanded_operands,
+    "transposed-per-axis-operands": case_transposed_per_axis_operands,
     "mm-contracted-axis": case_mm_contracted_axis,
     "mm-contracted-axis-right": case_mm_contracted_axis_right,
     "linear-weight-last-axis": case_linear_weight_last_axis,
